@@ -11,7 +11,7 @@ CHECKS = {
             'E1: all World operation histories over ids {1,2,3} x {A,B(A),X}, <=2 automatic ids per clear, explored to fixpoint under the coarse key and to a stated depth under the order-preserving key; every query family evaluated in every state Further parts: handler components whose lifecycle callbacks issue every query (order-preserving key), a callback that deletes and re-creates another entity, a lazily defined subclass, falsy and same-type-twice components, a stray deletion mark surviving clear(), query types that match only through isinstance (all query families must agree).',
             'CPython semantics; reference table model; coarse key drops dict order (DESIGN 2.5)', '3/C01'),
     'C02': ('explicit-state BFS of the real World with dispatch toggles to fixpoint (per-instance callback ledger vs table model), plus exhaustive fault enumeration while postponed callbacks are released and a fixpoint over callbacks that disable dispatching',
-            'E1: all histories of World operations x enable/disable over handler/non-handler (some falsy) component classes and 2 ids, postponed queue bounded, explored to fixpoint; ledger, is_handler and a probe event checked after every transition / in every state. E2: <= 3 lifecycle ops while disabled x raise / re-disable-and-attach at every delivery position of the release. E1 (order-preserving key): handlers whose on_remove / on_add disable dispatching; listener probe issued from inside lifecycle callbacks',
+            'E1: all histories of World operations x enable/disable over handler/non-handler (some falsy) component classes and 2 ids, postponed queue bounded, explored to fixpoint; ledger, is_handler and a probe event checked after every transition / in every state. E2: <= 3 lifecycle ops while disabled x raise / re-disable-and-attach at every delivery position of the release. E1 (order-preserving key): handlers whose on_remove / on_add disable dispatching; listener probe issued from inside lifecycle callbacks; the instance an entity already owns given again; E3: a component that attaches itself to another entity from its own on_remove',
             'CPython semantics; harness keeps components alive; clear() while disabled excluded (documented conflict)', '3/C02'),
     'C05': ('explicit-state BFS of the real World to fixpoint: deferred deletion x every other operation x process, two-policy table model',
             'E1: deferred deletion mixed with every other World op on the same/other entity, deletion from inside a frame, deferred delete of a never-existing id, any number of process() calls, explored to fixpoint Further parts: handler whose on_remove deletes its own entity / re-creates another one, order-preserving single-entity part, identifiers of not mutually orderable types, an on_remove callback that raises once (later frames must not keep failing).',
@@ -29,7 +29,7 @@ CHECKS = {
             'E1+E2: all interleavings of dispatch / enable / disable / add / remove listener (queue <= 5 with one fault, queue <= 2 with two faults, every single nested release), explored to fixpoint or a reported cap; termination decided by a line budget on desper frames; isolation probe (dispatchers hold their own events); every sequence of <= 4 direct loop.switch(handle, clear_current, clear_next) calls over worlds that load disabled with queued events; E3: a callback of the release removes / adds / swaps listeners (every queue <= 5, position, action); E1: the World as dispatcher with lifecycle callbacks that close the gate',
             'CPython semantics; sys.settrace line budget (20000 lines) stands for non-termination', '3/C04'),
     'C10': ('exhaustive enumeration of drop points x callback actions x listener iteration orders on a real EventDispatcher and World',
-            'E2: k <= 3 listeners, every subset dropped between operations, full product of per-callback actions (drop / remove / immediate delete / deferred delete of any listener) x all k! orders, followed by process and further dispatches; weak references of the harness prove release Variants: half-registered listener, first dispatch released by the enabling assignment; position of every call judged against the moment the last reference was dropped. E3: dispatcher after losing a listener to the collector vs after remove_handler under every later history of <= 5 operations; E2: components detached while disabled, every subset of postponed on_remove callbacks raising once.',
+            'E2: k <= 3 listeners, every subset dropped between operations, full product of per-callback actions (drop / remove / immediate delete / deferred delete of any listener) x all k! orders, followed by process and further dispatches; weak references of the harness prove release Variants: half-registered listener, first dispatch released by the enabling assignment; position of every call judged against the moment the last reference was dropped. E3: dispatcher after losing a listener to the collector vs after remove_handler under every later history of <= 5 operations; E2: components detached while disabled, every subset of postponed on_remove callbacks raising once; object graph of the dispatcher after 1, 2 and 6 register / dispatch / drop cycles.',
             'CPython reference counting (immediate finalisation at refcount 0)', '3/C10'),
     'C08': ('explicit-state BFS of a real CoroutineProcessor to quiescence/fixpoint against an independent-clock model updated online from hooks in scripted generator bodies',
             'E1: <= 3 coroutines with every yield script of length <= 3 over {None,0,-1,0.5,1,2} (plus in-body spawns), every start point, every dt sequence over {0,0.5,1,2} until quiescence; parts with three overlapping waits, sleepers killed / restarted from outside and from inside bodies; set of bodies advanced per frame, relative order of runnable coroutines, early / late wake-ups; E3: every assignment of waits to <= 6 sleepers (permutations of 7), started together or one per frame',
@@ -38,31 +38,31 @@ CHECKS = {
             'E1: fixed sets of scripted generators (runnable, waiting, finishing, killing themselves / others, starting others), every interleaving of start / kill / process / bad-argument calls to fixpoint; state(), promise value and reachability from the processor checked after every transition Further sets: kill-start-self-return, kill-other, three waiters; hand-over of a killed coroutine between two processors (isolation), non-positive waits, the wait-orders family of C08.',
             'CPython semantics; restart of an already returned generator from inside bodies left out (unobservable order)', '3/C09'),
     'C11': ('explicit-state BFS of a real ResourceMap (fixpoint for keys of depth <= 2, fixpoint / bounded depth for depth 3) against a nested-dict model with layers',
-            'E1: all histories of m[key]=value over the 14 keys of depth <= 3 x {handle, empty map, pre-populated map, pre-layered map}, clear() on root / sub-map, added handle layers; all 14 keys looked up through three access styles and all back-links checked in every state Further parts: empty path components, re-assignment of an overwritten object, one handle stored at two places, falsy and value-equal handles, an overwritten map stored again elsewhere.',
+            'E1: all histories of m[key]=value over the 14 keys of depth <= 3 x {handle, empty map, pre-populated map, pre-layered map}, clear() on root / sub-map, added handle layers; all 14 keys looked up through three access styles and all back-links checked in every state Further parts: empty path components, re-assignment of an overwritten object, one handle stored at two places, falsy and value-equal handles, an overwritten map stored again elsewhere, ResourceMap.split_char changed between operations.',
             'CPython semantics; each value inserted once; coarse key drops dict order, order-preserving run to depth 3', '3/C11'),
     'C15': ('bounded-exhaustive enumeration of world descriptions from an explicit grammar through five entry variants (dict, dict handle, file handle at root / composite key / explicit sub-map) against an independent description->world function',
-            'E3: every description of the grammar (<= 3 entities, <= 2 components, <= 2 processors, 13-value argument menu incl. the three reference forms, explicit / colliding ids), both entry points, handle at root and under a composite key; object_from_string on 13 dotted names; resource paths over 26 key classes x 4 positions x 4 delimiters; custom split_char; a failed first load attempt followed by the load under test',
+            'E3: every description of the grammar (<= 3 entities, <= 2 components, <= 2 processors, 13-value argument menu incl. the three reference forms, explicit / colliding ids), both entry points, handle at root and under a composite key; object_from_string on 13 dotted names; resource paths over 26 key classes x 4 positions x 4 delimiters; custom split_char; a failed first load attempt followed by the load under test; references to false objects and to false handles',
             'CPython semantics; in-memory modules registered in sys.modules by the harness; JSON files on tmpfs', '3/C15'),
     'C13': ('exhaustive enumeration of switch scripts on a real SimpleLoop with scripted clock and WorldHandle-loaded worlds; event ledger per world instance',
-            'E2: every script of <= 3 requests (2 and 3 handles; 4 requests for the lean request menu) x target x clear_current x clear_next x source (processor / on_update callback / coroutine) x via (switch with from_world / through default_loop / bare raise) x pre-loaded or not, probes dispatched into every world left Falsy World subclasses, loops that are not desper.default_loop, stalled request sources reported as violations, requests issued from inside a release of held events and after the running code cleared its own handle, on_switch_in not before the requesting frame is over.',
+            'E2: every script of <= 3 requests (2 and 3 handles; 4 requests for the lean request menu) x target x clear_current x clear_next x source (processor / on_update callback / coroutine) x via (switch with from_world / through default_loop / bare raise) x pre-loaded or not, probes dispatched into every world left Falsy World subclasses, loops that are not desper.default_loop, stalled request sources reported as violations, requests issued from inside a release of held events and after the running code cleared its own handle, on_switch_in not before the requesting frame is over; all handles compare and hash equal.',
             'CPython semantics; desper.default_loop patched per case; load() count free', '3/C13'),
     'C14': ('exhaustive enumeration of frame scripts and restarts on a real SimpleLoop with a scripted clock',
-            'E2: every script with <= 4 frames in total over <= 3 start() calls; frame = increment {0,0.5,1,3} x (nothing | processor position x {Quit, quit_loop(world), quit_loop(), SwitchWorld, RuntimeError}); per-frame ledger of world, processor and dt Clock bases hitting zero and exact Fractions around 2**60; direct loop.switch, handle cleared while its world runs, on_quit listener that raises, Quit / another exception raised while the loop enters the target world, falsy worlds, idle default loop.',
+            'E2: every script with <= 4 frames in total over <= 3 start() calls; frame = increment {0,0.5,1,3} x (nothing | processor position x {Quit, quit_loop(world), quit_loop(), SwitchWorld, RuntimeError}); per-frame ledger of world, processor and dt Clock bases hitting zero and exact Fractions around 2**60; direct loop.switch, handle cleared while its world runs, on_quit listener that raises, Quit / another exception raised while the loop enters the target world, falsy worlds, idle default loop, a switch towards the running handle, loop.time_function assigned during a run, three runs of one loop object.',
             'CPython semantics; dyadic clock readings', '3/C14'),
     'C18': ('complete value grids deciding bounded-degree polynomial identities with exact rational arithmetic; all swizzle strings; full {-1,0,1}^16 Mat4 inverse grid; tolerance grid for sqrt/angle operations',
             'E3: full grids per operation family (vector arithmetic, cross, lerp, clamp, limit, all swizzles, matrix sums/products on all basis pairs plus dense guards, associativity/identity laws, 43 046 721 integer Mat4 inverses in thorough, constructors through their action on points); sqrt/angle family is a bounded tolerance check only; extrapolating lerp, zero-length vectors written six ways, swizzle look-up histories with one forked process per case',
             'grid lemma: straight-line arithmetic of bounded per-variable degree (recorded in evidence); CPython int/Fraction exactness', '3/C18'),
     'C12': ('explicit-state BFS to fixpoint plus exhaustive enumeration of all access/clear sequences of a stated length over every access path of a real Handle / ResourceMap / StaticResourceMap',
-            'E1/E3: all sequences of length <= 6 over six access paths + clear() x 8 loaded values (None, 0, empty containers, hostile __eq__/__bool__); load counter, identity and cached checked after every step Further: loaders that raise once, world-file $res{} access path, values with hostile __eq__, a finaliser running inside clear(), every Loop.switch(handle, clear_current, clear_next) history, switch requests through desper.switch, two handles under one name (layered map built by the real populator).',
+            'E1/E3: all sequences of length <= 6 over six access paths + clear() x 8 loaded values (None, 0, empty containers, hostile __eq__/__bool__); load counter, identity and cached checked after every step Further: loaders that raise once, world-file $res{} access path, values with hostile __eq__, a finaliser running inside clear(), every Loop.switch(handle, clear_current, clear_next) history, switch requests through desper.switch, two handles under one name (layered map built by the real populator), resource names that are no slot names, value-equal handles on the loop.',
             'CPython semantics; values compared by identity only', '3/C12'),
     'C17': ('bounded-exhaustive enumeration of resource trees (names incl. non-identifiers, keyword, dunder; layered handles) against the live map, with mutation attempts on every snapshot',
-            'E3: every resource tree with <= 4 nodes per map / <= 5 nodes in total over 6 names, two layering styles; every path through item, attribute and get access; every absent name; setattr/delattr attempts on every (sub-)snapshot followed by a full re-comparison; rounds of Handle.clear() after the snapshot was read (snapshot-first and map-first); re-snapshot after edits judged against the map itself',
+            'E3: every resource tree with <= 4 nodes per map / <= 5 nodes in total over 6 names, two layering styles; every path through item, attribute and get access; every absent name; setattr/delattr attempts on every (sub-)snapshot followed by a full re-comparison; rounds of Handle.clear() after the snapshot was read (snapshot-first and map-first); re-snapshot after edits judged against the map itself; handle classes overriding __call__ / falsy / sized, a map class with its own split_char',
             'CPython semantics; names colliding with the snapshot\'s own members excluded (statement)', '3/C17'),
     'C19': ('explicit-state twin exploration of two real Worlds to fixpoint (controller shorthand vs World call, canonical-key equality); exhaustive enumeration of Prototype subclass shapes and OnUpdateProcessor cases',
             'E1: all World operation histories (2 ids, A/B(A)/X/Controller, processors, dispatch toggles) with every shorthand applied in every reached state to one twin through the Controller and to the other through World; E3: every Prototype shape (6 type lists x sources x prefix x subclass override), OnUpdateProcessor 0-3 listeners x dt sequences Reads compared after every operation, free-standing controller, controller handed to another entity, instance-level priorities, value-equal components, construction sources that raise while running.',
             'CPython semantics; twin equality through the generic canonical key', '3/C19'),
     'C20': ('explicit-state BFS over assignment histories on real Transform2D/3D instances with listeners on every event subset; exhaustive constructor / listener-subset families',
-            'E1: all assignment histories to fixpoint (quick: depth 3) over 2 instances x 3 properties x 8 rotations / 3 vectors; E3: all listener subset pairs, all constructor argument combinations, registration histories with clear(), every sequence of <= 5 operations over assignments / disable / enable / clear / re-register, a listener pausing its own transform during a release',
+            'E1: all assignment histories to fixpoint (quick: depth 3) over 2 instances x 3 properties x 8 rotations / 3 vectors; E3: all listener subset pairs, all constructor argument combinations, registration histories with clear(), every sequence of <= 5 operations over assignments / disable / enable / clear / re-register, a listener pausing its own transform (or raising) during a release, listeners dropped / removed / added from inside a callback, falsy listeners',
             'CPython semantics', '3/C20'),
     'C16': ('bounded-exhaustive enumeration of real directory trees x rule sets x option combinations x directory listing orders against an independent tree->key-set function',
             'E3: every directory tree of the family (<= 4 entries, depth <= 3, names with / without extension, directories with extension, empty directories) x 1-2 rules (rule dir nested / missing / plain file; extension filters; extra args) x nest_on_conflict x trim_extensions (constructor / per call) x 1-2 populations x every os.scandir order for small directories; every way of handing the extension filter to add_rule (tuple, set, keys view, one-shot iterator; cleared / overwritten / recycled by the caller afterwards)',
